@@ -57,8 +57,18 @@ def c06(tier):
     rep.exhaustive = tier == 'thorough'
     groups = []
     groups += sweep_groups(lambda v, a, r: short(5, v, a, r.getrandbits(14)), codes, OPTSETS[:3], rng)
-    groups += sweep_groups(lambda v, a, r: long_(21, v, bits_of(r.getrandbits(56), 56), a, r.getrandbits(14)),
+    groups += sweep_groups(lambda v, a, r: long_(21, v, bits_of(r.choice([0, (1 << 56) - 1, r.getrandbits(56), r.getrandbits(56), r.getrandbits(56)]), 56), a, r.getrandbits(14)),
                            codes if tier == 'thorough' else codes[::2], OPTSETS[:3], rng, setups=CAP_SETUPS)
+    # the first frame ever heard from an aircraft, of every format that does not carry the identity: the row starts without a squawk
+    for opts in OPTSETS:
+        g = [reset(opts)]
+        for k in range(3):
+            for j, l in enumerate(other_format_frames(0x4b0a00 + 64 * k, rng)):
+                fa = 0x4b0a00 + 64 * k + j + 1
+                l2 = [x for x in other_format_frames(fa, rng)][j]
+                if int(l2[:2], 16) >> 3 not in (5, 21):
+                    g.append(run1(l2))
+        groups.append(g)
     # every other format applied to a row that has a squawk: must not change it
     for opts in OPTSETS:
         for k in range(4 if tier == 'quick' else 40):
@@ -135,9 +145,13 @@ def c05(tier):
         tcs = [9, 11, 18]
     rep.exhaustive = tier == 'thorough'
     groups = []
-    groups += sweep_groups(lambda v, a, r: short(4, v, a, r.getrandbits(14)), c13, OPTSETS[:3], rng)
+    ysf, xsf = cpr_encode(51.47, -0.45, 0)
+    surf = lambda a: df17(5, a, me_surface(7, 30, 1, 64, 0, ysf, xsf))
+    # (rows made by a DF11, and rows whose latest extended squitter was a surface-position report)
+    groups += sweep_groups(lambda v, a, r: short(4, v, a, r.getrandbits(14)), c13, OPTSETS[:3], rng,
+                           setups=[lambda a: [df11(5, a)], lambda a: [df11(5, a), surf(a)], lambda a: [surf(a)]])
     groups += sweep_groups(lambda v, a, r: long_(20, v, bits_of(r.getrandbits(56), 56), a, r.getrandbits(14)),
-                           c13 if tier == 'thorough' else c13[::2], OPTSETS[:3], rng, setups=CAP_SETUPS)
+                           c13 if tier == 'thorough' else c13[::2], OPTSETS[:3], rng, setups=CAP_SETUPS + [lambda a: [df11(5, a), surf(a)]])
     for tc in tcs:
         # (the CPR fields are random, or one / both of them zero: the altitude does not depend on them)
         groups += sweep_groups(lambda v, a, r: df17(5, a, me_airpos(tc, r.getrandbits(2), v, r.getrandbits(1),
@@ -195,10 +209,18 @@ def c07(tier):
     groups += sweep_groups(lambda v, a, r: df17(5, a, me_ident(v[0], v[1], callsign_codes('WAKE%d%d' % v))), tcca, OPTSETS, rng)
     # BDS 2,0 via DF20/DF21 under each capability state: no CA, CA 5 via DF11, CA 5 via DF17, -R
     sub = vals[:512:4] + vals[512:512 + (100 if tier == 'quick' else 3000)]
-    for setup in (lambda a: [df11(0, a)], lambda a: [df11(5, a)], lambda a: [df17(5, a, me_opstatus(2))]):
+    for setup in (lambda a: [df11(0, a)], lambda a: [df11(5, a)], lambda a: [df17(5, a, me_opstatus(2))], lambda a: [df11(7, a)], lambda a: [df11(6, a)],
+                  lambda a: [df11(5, a), df11(7, a)]):
         for dfn in (20, 21):
             groups += sweep_groups(lambda v, a, r: long_(dfn, r.getrandbits(13), mb20(v), a, r.getrandbits(14)),
                                    sub, OPTSETS, rng, setup_fn=setup)
+    # a BDS 2,0 reply as the first frame ever heard, then the same line again (the creating frame may contribute the address only,
+    # the repeat delivers the callsign), one line per run vs one run
+    for k, opts in enumerate(OPTSETS):
+        a = 0x3c7100 + k
+        fr = long_(20, enc_alt13(24000), mb20(callsign_codes('FIRST20')), a)
+        for seq in ([fr, fr], [fr, fr, fr], [df11(5, a), fr, fr]):
+            groups.append(seg_group('C07', seq, opts))
     # the same callsign under changing type code / category, and blank identifications after a real one
     for opts in OPTSETS:
         a = 0x3c7000 + len(opts)
@@ -628,7 +650,8 @@ def c04(tier):
         for ctx in (0, 1):
             for i in range(0, len(pats), 300):
                 # (options that look at the frame before it is applied: message log of its own / another format, filter, counters)
-                g = [reset((['-U'] if (i // 300) % 2 else []) + [[], ['-M', '17', '-M', '18', '-M', '11'], ['-M', '4'], ['-c'], ['-f', '17', '-f', '18', '-f', '11', '-c']][(i // 300) % 5])]
+                g = [reset((['-U'] if (i // 300) % 2 else []) + [[], ['-M', '17', '-M', '18', '-M', '11'], ['-f', '17', '-f', '18', '-f', '11'], ['-M', '4'], ['-c'],
+                                                                 ['-f', '17', '-f', '18', '-f', '11', '-c']][(i // 300 + 2 * sq.index(fr) + 3 * ctx) % 6])]
                 if ctx:
                     g.append(run1(fr))                          # the valid squitter itself: applied
                     g.append(run1(short(5, enc_squawk(1, 2, 3, 4), a)))
@@ -1857,7 +1880,7 @@ def run_print(binary, cases, name):
         b = blocks.get(c['id'])
         if b is None or len(b) < 2:
             raise ToolError('print case %s produced no output' % c['id'])
-        events.append({'e': 'print', 'i': len(events) + 1, 'flags': cli.cps(c['i']), 'order': cli.cps(c['o']), 'rows': c['rows'],
+        events.append({'e': 'print', 'i': len(events) + 1, 'flags': cli.cps(c['i']), 'order': cli.cps(c.get('o_eff', c['o'])), 'rows': c['rows'],
                        'header': cli.cps(b[0]), 'sep': cli.cps(b[1]), 'lines': [cli.cps(x) for x in b[2:]]})
     return events
 
@@ -2064,6 +2087,15 @@ def c15(tier):
             rows.append(r)
         cases.append({'id': len(cases), 'i': rng.choice(['', 'e']), 'o': rng.choice(['s', 'a', 'sA', 'As']), 'rows': rows,
                       'argv': [[], ['-d', '2'], ['-d', '0']][t % 3]})
+    # -o given several times: the option values are concatenated, the last recognised letter of all of them decides
+    for first, rest in (('s', ['a']), ('a', ['s']), ('A', ['s', 'N']), ('N', ['zz', 'a']), ('s', ['A', 'x']), ('d', ['s'])):
+        for t in range(2 if tier == 'quick' else 10):
+            rows = []
+            for a in rng.sample(range(1, 0xFFFFFF), rng.randrange(4, 8)):
+                r = blank_row(a); r['sq'] = rng.choice(vals['sq'][1:]); r['alt'] = [rng.randrange(0, 40000, 25)]
+                r['lat'] = 10 * rng.randrange(-8000000, 8000000); r['lon'] = 10 * rng.randrange(-17000000, 17000000)
+                rows.append(r)
+            cases.append({'id': len(cases), 'i': '', 'o': first, 'o_eff': first + ''.join(rest), 'rows': rows, 'argv': [x for o_ in rest for x in ('-o', o_)]})
     events = run_print(binary, cases, 'c15')
     for e in cli_table_events(rng, 4 if tier == 'quick' else 60, ['sA', 'N', 'a', 'dV', '', 'W', 'v', 'c', 'A', 'zz']):
         e['i'] = len(events) + 1
